@@ -16,6 +16,7 @@ import scipy.linalg
 import torch
 
 from harness.common import Driver, LeanError, Report, f2b, b2f, lean_stage, seeded, unlst
+from harness.props.extra_stage import ExtraLeanStage
 from harness.props.kry_common import LeanStageThread, Recorder, cx, uncx, l1, l2, mat_line, rel_close
 
 REGISTRY = dict(
@@ -29,7 +30,16 @@ REGISTRY = dict(
           "op^dagger = c*op. PARTIAL: 'converged => |result-exp(A)v| <= 10*tol*|v|' (Expokit error estimate) is stated "
           "as a Prop, NOT proved; it is validated against scipy.linalg.expm on the three operator classes of the "
           "property (threshold 10*tol*|v| + 1e-9*max(1,|exp A|)*|v|). Breakdown exactness (residual exactly 0 => result "
-          "= exp(op)v) is stated, not proved. FINDING D20-C07 (open, class krylov-early-accept-avnorm): the unchanged code "
+          "= exp(op)v) is PROVED: its algebraic core in Props/C07Breakdown.lean (audited on every run) for every Krylov "
+          "dimension and every complete complex normed space - exp_intertwine (A Q = Q T => exp(A) Q = Q exp(T), Q any "
+          "rectangular matrix), exp_krylov_relation (A q_k = sum_i T_ik q_i for all k => exp(A) q_k = sum_i exp(T)_ik q_i), "
+          "krylov_breakdown_exact (v = beta q_0 => exp(A) v = beta sum_i exp(T)_i0 q_i, the vector returned on the happy "
+          "exit), relation_of_arnoldi_steps / breakdown_exact_of_arnoldi_steps (from the per-iteration Arnoldi relation with "
+          "an exactly vanishing last residual); Props/C07BreakdownModel.lean (audited on every run) proves the loop invariant on "
+          "the local T (tInv_reach: columns < j satisfy A q_k = sum_i T_ik q_i and are zero below the sub-diagonal, both "
+          "branches, any op), the list/array plumbing of `combine` (happy_exit_result) and C07.BreakdownExact itself "
+          "(breakdownExact_holds: for the exact matrix_exp oracle, a run that ends in iteration j with n2 = 0 returns exp(A)v). "
+          "FINDING D20-C07 (open, class krylov-early-accept-avnorm): the unchanged code "
           "violates the accuracy clause inside the quantifier when the start vector is nearly an eigenvector of the "
           "dominant part (err2 uses |op v_j| instead of Expokit's |op v_{j+1}|): kernel-checked exact model run "
           "(early_accept_witness) + replay on the real code against scipy on every run. FINDING D21-C07 (open, class "
@@ -47,6 +57,10 @@ REGISTRY = dict(
 
 PROP_MODULE = "EmuVerif.Props.C07"
 AUDIT = "Audit/C07.lean"
+# BreakdownExact: Props/C07Breakdown.lean (algebraic core) and Props/C07BreakdownModel.lean (loop invariant on T, plumbing,
+# `breakdownExact_holds`; imports the core and Props/C07). One stage on every run: Audit/C07BreakdownModel.lean lists the theorems
+# of BOTH modules (one Mathlib load; Audit/C07Breakdown.lean = the core alone).
+EXTRA_STAGES = [("EmuVerif.Props.C07BreakdownModel", "Audit/C07BreakdownModel.lean")]
 TIE = 1e-9          # decisions closer than this (relative) to their threshold are not compared
 TREL = 1e-12        # tolerance on T entries / result where the model does its own arithmetic (dense run)
 
@@ -509,6 +523,9 @@ def check(rep: Report, tier: str, seed: int) -> None:
     # build + grep + `#print axioms` audit run concurrently with the Python side (joined before the driver is used)
     lean_thread = LeanStageThread(rep, PROP_MODULE, AUDIT, thorough=(tier == "thorough"))
     lean_thread.start()
+    # the extra module waits for the main stage (never two `lake build`s at once), then runs beside the driver / comparison
+    extra = ExtraLeanStage(rep, EXTRA_STAGES, thorough=(tier == "thorough"), after=lean_thread)
+    extra.start()
     rng = seeded(seed * 7919 + 7)
     torch.manual_seed(seed)
     n_or = 200 if tier == "quick" else 1800
@@ -650,6 +667,7 @@ def check(rep: Report, tier: str, seed: int) -> None:
                 rep.broke(f"correspondence Model.Krylov.expImpl ({mode}) vs krylov_exp_impl: {msg}; case="
                           + json.dumps({k: v for k, v in _ser(case).items() if not k.startswith(("a_", "v_"))}))
     rep.extra["correspondence_disagreements"] = dis
+    extra.merge()
     if rep.broken and not rep.failing:
         search(rep, seed, 1500 if tier == "quick" else 20000, tier)
 
